@@ -26,6 +26,27 @@ def W(**kw):
     return w
 
 
+class ProbeMixin:
+    """Direct Python-side probes next to the histories: cases whose input has a 'probe' key."""
+
+    def rerun(self, inp):
+        if 'probe' in inp:
+            cases = [c for c in self.direct_probes(random.Random(inp.get('seed', 0)), 80) if c['input']['probe'] == inp['probe']]
+            bad = [c for c in cases if c['pyfail']]
+            return (bad or cases or [None])[0]
+        return HistProp.rerun(self, inp)
+
+    def key(self, case):
+        if 'probe' in case['input']:
+            return 'probe ' + case['input']['probe']
+        return HistProp.key(self, case)
+
+    def shrink_candidates(self, inp):
+        if 'probe' in inp:
+            return []
+        return HistProp.shrink_candidates(self, inp)
+
+
 class C03(HistProp):
     id = 'C03'
     props_file = 'theories/Props/C03.v'
@@ -60,7 +81,7 @@ class C04(HistProp):
     assumptions = CORE_ASSUME
 
 
-class C06(HistProp):
+class C06(ProbeMixin, HistProp):
     id = 'C06'
     props_file = 'theories/Props/C06.v'
     weights = W(select=6, merge=5, slice=6, getrows=3, sort=5, shuffle=5, sample=3, concat=5, setcolfromcol=6,
@@ -161,26 +182,6 @@ class C06(HistProp):
                         'tags': ['probe', 'probe:' + name]})
         return out
 
-    def rerun(self, inp):
-        if 'probe' in inp:
-            for c in self.direct_probes(random.Random(0), 0):
-                pass
-            # deterministic re-execution of one probe kind over a few seeds
-            cases = [c for c in self.direct_probes(random.Random(inp.get('seed', 0)), 60) if c['input']['probe'] == inp['probe']]
-            bad = [c for c in cases if c['pyfail']]
-            return (bad or cases or [None])[0]
-        return super().rerun(inp)
-
-    def key(self, case):
-        if 'probe' in case['input']:
-            return 'probe ' + case['input']['probe']
-        return super().key(case)
-
-    def shrink_candidates(self, inp):
-        if 'probe' in inp:
-            return []
-        return super().shrink_candidates(inp)
-
 
 class C07(HistProp):
     id = 'C07'
@@ -210,7 +211,7 @@ class C08(HistProp):
     assumptions = CORE_ASSUME
 
 
-class C09(HistProp):
+class C09(ProbeMixin, HistProp):
     id = 'C09'
     props_file = 'theories/Props/C09.v'
     weights = W(concat=24, new=4, setcolkind=8, setcol=8, select=6, sort=3, shuffle=3, merge=5, setlength=6, setcell=10,
@@ -291,12 +292,9 @@ class C09(HistProp):
                         'tags': ['probe', 'probe:' + kind]})
         return out
 
-    rerun = C06.rerun
-    key = C06.key
-    shrink_candidates = C06.shrink_candidates
 
 
-class C11(HistProp):
+class C11(ProbeMixin, HistProp):
     id = 'C11'
     props_file = 'theories/Props/C11.v'
     weights = W(shuffle=20, sample=12, select=10, setcell=12, merge=6, setcolkind=6, setcol=4, slice=3, sort=3,
@@ -385,6 +383,3 @@ class C11(HistProp):
                         'tags': ['probe', 'probe:' + kind]})
         return out
 
-    rerun = C06.rerun
-    key = C06.key
-    shrink_candidates = C06.shrink_candidates
